@@ -1,6 +1,7 @@
 // C19 -- linear systems are solved to backward-stable accuracy; singular ones stand out.
 #include "pbt.hpp"
 #include "calscen.hpp"
+#include "calverify.hpp"
 
 const char *PBT_PROPERTY = "C19";
 using namespace pbt;
@@ -211,13 +212,64 @@ void least_squares(Ctx &c) {
     c.nontrivial();
 }
 
+// ---- (e) badly row-scaled over-determined solve ("independent of row order and row scaling") ------------------
+// A determining, well-conditioned set of known standards plus ONE redundant, consistent standard whose S-parameters
+// are larger by s = 1e2 .. 1e8, at any position: its equations are rows of the least-squares system heavier by s.
+// "The returned result satisfies the underlying linear system with a residual proportional to machine precision
+// times the problem's scale": the saved error terms (read back with the independent reader) are put into the
+// documented T / U equations of every standard; the largest residual over the largest coefficient scale (terms x
+// max(1, |S|, |M|, |M||S|) over all standards) must be <= CBWD * eps.  This normwise backward error is what an
+// orthogonal factorisation guarantees whatever the row order and scaling (largest value observed on the unchanged
+// tree: 5 eps; CBWD = 1e3).  The forward error of the corrected device is tracked only.
+static const long double CBWD = 1e3;
+void scaled_solve(Ctx &c) {
+    static const int types[4] = {vm::T8, vm::U8, vm::T16, vm::U16};
+    Scenario sc; sc.type = types[c.draw(4)]; sc.r = sc.c = sc.P = 1 + (int)c.draw(2); sc.F = 1; sc.ab = false; sc.freq = {1e9};
+    int P = sc.P;
+    sc.box.push_back(gen_box(c, sc.type, P, P));
+    Gen g(c, sc);
+    std::vector<int> inorder; for (int p = 0; p < P; p++) inorder.push_back(p);
+    int nstd = (P == 1 ? 3 : 5) + (int)c.draw(3);
+    for (int i = 0; i < nstd; i++) sc.stds.push_back(g.full_random(inorder, true));
+    vm::Ident id = ident_at(sc, 0); if (!id.determining || id.kappa > 1e3L) { c.label("filtered:conditioning"); return; }
+    long double kappa0 = id.kappa;
+    int e = (int)c.range(2, 8); long double sf = std::pow(10.0L, (long double)e);
+    Standard H = g.full_random(inorder, true);
+    for (auto &cell : H.cells) { if (cell.kind <= SCell::SHORT) { cell.kind = SCell::SCALAR; } for (auto &v : cell.v) v = (v == C(0, 0) ? C(0.3L, 0.2L) : v) * sf; cell.handle = -1; }
+    g.finish(H);
+    size_t pos = c.draw(sc.stds.size() + 1);
+    sc.stds.insert(sc.stds.begin() + pos, H);
+    sc.dut = gen_dut(c, P, 1);
+    c.label("e:row-scaled-solve"); { char l[32]; snprintf(l, sizeof l, "e:scale=1e%d", e); c.label(l); } c.label(pos == 0 ? "e:heavy-first" : pos + 1 == sc.stds.size() ? "e:heavy-last" : "e:heavy-middle");
+    c.note("%s %dx%d, %d standards + one with S larger by 1e%d at position %zu, kappa (without it) %.3Lg", vm::tname(sc.type), P, P, nstd, e, pos, kappa0);
+    Runner run(c, sc); run.create(); run.alloc();
+    for (auto &st : sc.stds) PBT_CHECK(c, run.add(st) == 0, "C19.add_refused", "add refused: %s", run.log.text().c_str());
+    PBT_CHECK(c, vnacal_new_solve(run.vnp) == 0, "C19.solve_failed", "over-determined solve with a heavy consistent standard failed: %s", run.log.text().c_str());
+    int ci = vnacal_add_calibration(run.vcp, "c", run.vnp); ci = vnacal_find_calibration(run.vcp, "c");
+    PBT_CHECK(c, ci >= 0, "C19.add_calibration", "add_calibration failed: %s", run.log.text().c_str());
+    calfile::File file; std::string err;
+    PBT_CHECK(c, save_and_read(c, run.vcp, file, err), "C19.save_read", "saving / reading the calibration failed: %s", err.c_str());
+    const calfile::Cal *cal = nullptr; for (auto &k : file.cals) if (k.name == "c") cal = &k;
+    PBT_CHECK(c, cal != nullptr && !cal->data.empty(), "C19.save_read", "calibration 'c' not found in the saved file");
+    std::string why; long double bwd = saved_terms_residual(sc, *cal, 0, why, true);
+    PBT_CHECK(c, why.empty(), "C19.save_read", "saved terms unusable: %s", why.c_str());
+    c.track_max(std::string("row-scaled solve: normwise backward error / eps, ") + (P == 1 ? "1x1" : "2x2") + (pos == 0 ? " heavy first" : " heavy later"), (double)(bwd / EPS));
+    PBT_CHECK(c, bwd <= CBWD * EPS, "C19.row_scaling", "%s %dx%d: with one consistent standard heavier by 1e%d (position %zu of %zu) the solved error terms leave a residual of %.3Lg relative to the scale of the system in the documented equations (bound %.3Lg = %Lg eps)", vm::tname(sc.type), P, P, e, pos, sc.stds.size(), bwd, CBWD * EPS, CBWD);
+    std::vector<Mat> out; PBT_CHECK(c, run.apply(ci, sc.dut, out) == 0, "C19.apply_failed", "apply failed");
+    long double worst = 0; for (int i = 0; i < P; i++) for (int j = 0; j < P; j++) worst = std::max(worst, std::abs(sc.dut[0](i, j) - out[0](i, j)));
+    c.track_max(std::string("row-scaled solve: device error / (eps * s * kappa), ") + (P == 1 ? "1x1" : "2x2") + (pos == 0 ? " heavy first" : " heavy later"), (double)(worst / (EPS * sf * kappa0)));
+    c.track_max(std::string("row-scaled solve: device error / (eps * kappa), ") + (P == 1 ? "1x1" : "2x2") + (pos == 0 ? " heavy first" : " heavy later"), (double)(worst / (EPS * kappa0)));
+    c.nontrivial();
+}
+
 } // namespace
 
 void pbt_property(Ctx &c) {
-    switch (c.weighted({40, 3, 3, 2})) {
+    switch (c.weighted({40, 3, 3, 2, 3})) {
     case 0: conversions(c); break;
     case 1: apply_ab(c); break;
     case 2: zero_pivot(c); break;
-    default: least_squares(c); break;
+    case 3: least_squares(c); break;
+    default: scaled_solve(c); break;
     }
 }
